@@ -335,6 +335,18 @@ pub fn gen_program(r: &mut Rng, max_q: usize, with_nonunitary: bool) -> Program 
             }
         }
     }
+    if r.chance(1, 5) {
+        // a built-in name that is shadowed by a user gate only later in the text: the built-in applies until the definition
+        // is reached, the user gate from there on (statements are interpreted strictly in text order)
+        let b = *r.pick(&["sdg", "tdg", "y"][..]);
+        let q = r.pick(&qubits).clone();
+        stmts.push(format!("{b} {q};"));
+        stmts.push(format!("gate {b} a {{ h a; t a; }}"));
+        stmts.push(format!("{b} {q};"));
+        if r.chance(1, 2) {
+            stmts.push(format!("h {q};"));
+        }
+    }
     if with_nonunitary && r.chance(1, 3) {
         // a classical register declared late, right before its first use (when the program is fed in chunks, the cut
         // often falls before it: the register is then declared and used in the same later chunk, on top of a session
